@@ -135,8 +135,8 @@ def math_call(ex, st, name, args):
         ex.ideal = True
         if z3.is_rational_value(ys) and ys.denominator_as_long() == 1 and 0 <= ys.numerator_as_long() <= 4:
             k = ys.numerator_as_long()
-            r = z3.RealVal(1)
-            for _ in range(k):
+            r = z3.RealVal(1) if k == 0 else x
+            for _ in range(k - 1):
                 r = r * x
             return RealV(r, DOUBLE)
         val = uf('pow', 2)(x, y)
